@@ -771,7 +771,7 @@ func exec(t *testing.T, ci sim.CaseI, choices []uint32, keepLog bool) *sim.Outco
 			}()
 			v := cuecontext.New().CompileString(src, cue.Filename("wf.cue"))
 			if v.Err() != nil {
-				panic(fmt.Sprintf("harness: generated program does not compile: %v\n%s", v.Err(), src))
+				sim.Trouble("generated program does not compile: %v\n%s", v.Err(), src)
 			}
 			fc := &flow.Config{Root: cue.ParsePath("root"), IgnoreConcrete: c.IgnoreConcrete, InferTasks: c.InferTasks, FindHiddenTasks: c.FindHiddenTasks}
 			ctl := flow.New(fc, v, func(v cue.Value) (flow.Runner, error) {
